@@ -1,9 +1,14 @@
 /-
   C09 — connect / stream / disconnect behave as a clean, repeatable life cycle.
   Property theorems only (helper lemmas in Lemmas/Lifecycle.lean).
-  Histories are arbitrary lists of public calls of the high-level handler (`Lifecycle.Call`),
-  starting from a fresh handler in front of a device in any state (idle, or left streaming with
-  channels enabled by a previous session); the device acknowledges every request.
+  Histories are arbitrary lists of public calls of the high-level handler (`Lifecycle.Call`) or of a bare
+  low-level handler (`Lifecycle.CommCall`), starting from a fresh handler in front of a device in any state (idle,
+  or left streaming with channels enabled by a previous session) with any static description (`Lifecycle.Desc`).
+  `after` is a history in which the device acknowledges every request; `afterA` / `afterC` are histories in which
+  every stream start/stop, divider and enable request is answered as an `Ans` record says (acknowledged, rejected
+  with a code, applied with the ACK lost, lost).  Time counts the waiting for the device (ACK waits, draining
+  polls), in tenths of a second; joining a library thread is bounded by one wait of that thread (C13) and not
+  charged.
 -/
 import NxsModel.Gen.CfgShape
 import NxsModel.Lifecycle
@@ -15,61 +20,189 @@ open Nxs Nxs.Lifecycle Nxs.Config
 def WFDev (d : Device) : Prop :=
   d.en.length ≤ 255 ∧ d.div.length = d.en.length ∧ ∀ v ∈ d.div, 0 ≤ v ∧ v ≤ 255
 
-/-- the state after a history of calls on a fresh handler -/
-def after (d0 : Device) (started : Bool) (flags : Nat) (calls : List Call) : World :=
-  (run (World.fresh d0 started flags) calls).1
+/-- the state after a history of calls on a fresh high-level handler, everything acknowledged -/
+def after (d0 : Device) (started : Bool) (flags : Nat) (calls : List Call) (desc : Desc := Desc.plain d0.en.length) : World :=
+  (run (World.fresh d0 started flags desc) calls).1
 
-/-- connect on a connected handler and disconnect on a disconnected one do nothing at all -/
-theorem connect_idem (w : World) (h : w.connected = true) : step w .connect = (w, .ok) :=
-  step_connect_idem w h
-theorem disconnect_idem (w : World) (h : w.connected = false) : step w .disconnect = (w, .ok) :=
-  step_disconnect_idem w h
+/-- the state after a history of calls on a fresh high-level handler, the device answering as the history says -/
+def afterA (d0 : Device) (started : Bool) (flags : Nat) (desc : Desc) (hist : List (Call × Ans)) : World :=
+  (runA (World.fresh d0 started flags desc) hist).1
+
+/-- the state after a history of calls on a fresh bare low-level handler -/
+def afterC (d0 : Device) (started : Bool) (flags : Nat) (desc : Desc) (hist : List (CommCall × Ans)) : World :=
+  (commRun (World.fresh d0 started flags desc) hist).1
+
+/-- the static description of the device: channel count, flags, rx padding, per channel type / dimension /
+    metadata length / name -/
+def description (d0 : Device) (flags : Nat) (desc : Desc) : Reported := ⟨d0.en.length, flags, desc.rxpadding, desc.chans⟩
+
+/-! ### idempotence, both handler levels -/
+
+/-- connect on a connected handler and disconnect on a disconnected one do nothing at all (no request, no time,
+    no state change), whatever the device would answer -/
+theorem connect_idem (w : World) (a : Ans) (h : w.connected = true) : step w .connect a = (w, .ok) :=
+  step_connect_idem w a h
+theorem disconnect_idem (w : World) (a : Ans) (h : w.connected = false) : step w .disconnect a = (w, .ok) :=
+  step_disconnect_idem w a h
+
+/-- the same for the low-level handler: `CommHandler.connect()` on a started handler and `disconnect()` on a stopped
+    one do nothing at all — in particular a repeated connect does not re-initialise the buffered configuration -/
+theorem comm_connect_idem (w : World) (a : Ans) (h : w.commStarted = true) : commStep w .connect a = (w, .ok) := by
+  rw [commStep_connect, commConnect_started w h]
+theorem comm_disconnect_idem (w : World) (a : Ans) (h : w.commStarted = false) : commStep w .disconnect a = (w, .ok) := by
+  rw [commStep_disconnect, commDisconnect_stopped w h]
+
+/-- … so connecting twice is connecting once, and disconnecting twice is disconnecting once, from any state -/
+theorem comm_connect_twice (w : World) (a b : Ans) :
+    commStep (commStep w .connect a).1 .connect b = ((commStep w .connect a).1, .ok) := by
+  apply comm_connect_idem
+  rw [commStep_connect]
+  cases h : w.commStarted with
+  | true => rw [commConnect_started w h]; exact h
+  | false => rw [commConnect_stopped w h]
+theorem comm_disconnect_twice (w : World) (a b : Ans) :
+    commStep (commStep w .disconnect a).1 .disconnect b = ((commStep w .disconnect a).1, .ok) := by
+  apply comm_disconnect_idem
+  rw [commStep_disconnect]
+  cases h : w.commStarted with
+  | false => rw [commDisconnect_stopped w h]; exact h
+  | true => rw [commDisconnect_started w h]
+theorem connect_twice (w : World) (a b : Ans) :
+    step (step w .connect a).1 .connect b = ((step w .connect a).1, .ok) := by
+  apply connect_idem
+  rw [step_connect]
+  cases h : w.connected with
+  | true => exact h
+  | false => rfl
+
+/-! ### the state machine -/
 
 /-- the handler is a simple two-state machine: in every reachable state, "disconnected" means no
     receive thread, no stream thread, interface stopped, no device description, stream not started;
     "connected" means receive thread running, interface started, description present; the stream
     thread runs exactly while the stream is started, and the device streams exactly then -/
-theorem state_machine (d0 : Device) (started : Bool) (flags : Nat) (calls : List Call) (hd : WFDev d0) :
-    let w := after d0 started flags calls
+theorem state_machine (d0 : Device) (started : Bool) (flags : Nat) (desc : Desc) (calls : List Call) (hd : WFDev d0) :
+    let w := after d0 started flags calls desc
     (w.connected = false → w.recvThr = false ∧ w.streamThr = false ∧ w.intf = false ∧ w.hasDev = false ∧
         w.commStarted = false ∧ w.streamStarted = false) ∧
     (w.connected = true → w.recvThr = true ∧ w.intf = true ∧ w.hasDev = true ∧ w.commStarted = true ∧
         w.streamThr = w.streamStarted ∧ w.devStarted = w.streamStarted) :=
-  c09_state_machine d0 started flags calls hd
+  c09_state_machine d0 started flags desc calls hd
+
+/-- the same two-state machine whatever the device answers (rejections, lost requests, lost ACKs): only the
+    device-side clause (the device streams exactly while the stream is started) needs the acknowledgements;
+    a disconnected handler reports no description, a connected one reports the device's static description -/
+theorem state_machine_any_answers (d0 : Device) (started : Bool) (flags : Nat) (desc : Desc)
+    (hist : List (Call × Ans)) (hd : WFDev d0) :
+    let w := afterA d0 started flags desc hist
+    (w.connected = false → w.recvThr = false ∧ w.streamThr = false ∧ w.intf = false ∧ w.hasDev = false ∧
+        w.commStarted = false ∧ w.streamStarted = false ∧ w.reported = none) ∧
+    (w.connected = true → w.recvThr = true ∧ w.intf = true ∧ w.hasDev = true ∧ w.commStarted = true ∧
+        w.streamThr = w.streamStarted ∧ w.reported = some (description d0 flags desc)) :=
+  c09_state_machine_any d0 started flags desc hist hd
+
+/-- the low-level handler alone: stopped means no receive thread, interface stopped, no description; started means
+    receive thread and interface running and the device's static description reported; it never has a stream thread -/
+theorem comm_state_machine (d0 : Device) (started : Bool) (flags : Nat) (desc : Desc)
+    (hist : List (CommCall × Ans)) (hd : WFDev d0) :
+    let w := afterC d0 started flags desc hist
+    (w.commStarted = false → w.recvThr = false ∧ w.intf = false ∧ w.hasDev = false ∧ w.reported = none) ∧
+    (w.commStarted = true → w.recvThr = true ∧ w.intf = true ∧ w.hasDev = true ∧
+        w.reported = some (description d0 flags desc)) ∧
+    w.streamThr = false :=
+  c09_comm_state_machine d0 started flags desc hist hd
+
+/-! ### calls on a disconnected high-level handler -/
 
 /-- calls made on the high-level handler while disconnected — every call other than connect —
     never reach the device (nothing written, device untouched), never start threads and never
     block (no virtual time passes); they return or raise immediately -/
-theorem disconnected_is_inert (d0 : Device) (started : Bool) (flags : Nat) (calls : List Call) (c : Call)
-    (hd : WFDev d0) (hc : c ≠ .connect) (hdis : (after d0 started flags calls).connected = false) :
-    let w := after d0 started flags calls
+theorem disconnected_is_inert (d0 : Device) (started : Bool) (flags : Nat) (desc : Desc) (calls : List Call) (c : Call)
+    (hd : WFDev d0) (hc : c ≠ .connect) (hdis : (after d0 started flags calls desc).connected = false) :
+    let w := after d0 started flags calls desc
     let w' := (step w c).1
     w'.log = w.log ∧ w'.dev = w.dev ∧ w'.devStarted = w.devStarted ∧ w'.time = w.time ∧
     w'.recvThr = false ∧ w'.streamThr = false ∧ w'.intf = false ∧ w'.connected = false :=
-  c09_disconnected_is_inert d0 started flags calls c hd hc hdis
+  c09_disconnected_is_inert d0 started flags desc calls c hd hc hdis
 
-/-- every reconnect reports the same static description (channel count and flags never change, and
-    each connect re-reads the configuration state from the device) -/
-theorem reconnect_same_description (d0 : Device) (started : Bool) (flags : Nat) (calls : List Call) (hd : WFDev d0) :
-    let w := after d0 started flags (calls ++ [.connect])
+/-- … also after a history in which the device rejected or lost requests, and whatever it would answer now -/
+theorem disconnected_is_inert_any_answers (d0 : Device) (started : Bool) (flags : Nat) (desc : Desc)
+    (hist : List (Call × Ans)) (c : Call) (a : Ans) (hd : WFDev d0) (hc : c ≠ .connect)
+    (hdis : (afterA d0 started flags desc hist).connected = false) :
+    let w := afterA d0 started flags desc hist
+    let w' := (step w c a).1
+    w'.log = w.log ∧ w'.dev = w.dev ∧ w'.devStarted = w.devStarted ∧ w'.time = w.time ∧
+    w'.recvThr = false ∧ w'.streamThr = false ∧ w'.intf = false ∧ w'.connected = false ∧ w'.reported = none :=
+  c09_disconnected_is_inert_any d0 started flags desc hist c a hd hc hdis
+
+/-! ### the description -/
+
+/-- every reconnect reports the same static description — the device's: channel count, flags, rx padding and per
+    channel type, dimension, metadata length and name — and re-reads the configuration state from the device -/
+theorem reconnect_same_description (d0 : Device) (started : Bool) (flags : Nat) (desc : Desc) (calls : List Call)
+    (hd : WFDev d0) :
+    let w := after d0 started flags (calls ++ [.connect]) desc
     w.dev.en.length = d0.en.length ∧ w.flags = flags ∧
-    ∃ c, w.cli = some c ∧ c.n = d0.en.length ∧ c.enNow = w.dev.en ∧ c.copyEn = w.dev.en ∧
-      c.divSupported = Info.divSupported flags ∧ c.ackSupported = Info.ackSupported flags :=
-  c09_reconnect_same_description d0 started flags calls hd
+    (∃ c, w.cli = some c ∧ c.n = d0.en.length ∧ c.enNow = w.dev.en ∧ c.copyEn = w.dev.en ∧
+      c.divSupported = Info.divSupported flags ∧ c.ackSupported = Info.ackSupported flags) ∧
+    w.reported = some (description d0 flags desc) :=
+  c09_reconnect_same_description d0 started flags desc calls hd
+
+/-- … whatever the device answered during the history: the static description never depends on it -/
+theorem reconnect_same_description_any_answers (d0 : Device) (started : Bool) (flags : Nat) (desc : Desc)
+    (hist : List (Call × Ans)) (a : Ans) (hd : WFDev d0) :
+    let w := afterA d0 started flags desc (hist ++ [(.connect, a)])
+    w.connected = true ∧ w.reported = some (description d0 flags desc) ∧ w.dev.en.length = d0.en.length ∧
+    w.flags = flags ∧ w.desc = desc :=
+  c09_reconnect_same_description_any d0 started flags desc hist a hd
+
+theorem comm_reconnect_same_description (d0 : Device) (started : Bool) (flags : Nat) (desc : Desc)
+    (hist : List (CommCall × Ans)) (a : Ans) (hd : WFDev d0) :
+    let w := afterC d0 started flags desc (hist ++ [(.connect, a)])
+    w.commStarted = true ∧ w.reported = some (description d0 flags desc) :=
+  c09_comm_reconnect_same_description d0 started flags desc hist a hd
+
+/-! ### after disconnect -/
 
 /-- after disconnect: no description is reported, no library thread is left, the interface is
     stopped; and if the handler was ever connected the device has been told to stop streaming and
     to disable every channel (its state says so) -/
-theorem after_disconnect (d0 : Device) (started : Bool) (flags : Nat) (calls : List Call) (hd : WFDev d0) :
-    let w := after d0 started flags (calls ++ [.disconnect])
+theorem after_disconnect (d0 : Device) (started : Bool) (flags : Nat) (desc : Desc) (calls : List Call) (hd : WFDev d0) :
+    let w := after d0 started flags (calls ++ [.disconnect]) desc
     w.connected = false ∧ w.hasDev = false ∧ w.recvThr = false ∧ w.streamThr = false ∧ w.intf = false ∧
-    (Call.connect ∈ calls → w.devStarted = false ∧ ∀ b ∈ w.dev.en, b = false) :=
-  c09_after_disconnect d0 started flags calls hd
+    (Call.connect ∈ calls → w.devStarted = false ∧ ∀ b ∈ w.dev.en, b = false) ∧ w.reported = none :=
+  c09_after_disconnect d0 started flags desc calls hd
+
+/-- whatever the device answers — also when it rejects or ignores the stop and disable requests — disconnect
+    completes and leaves the handler switched off: no description, no thread, interface stopped -/
+theorem after_disconnect_any_answers (d0 : Device) (started : Bool) (flags : Nat) (desc : Desc)
+    (hist : List (Call × Ans)) (a : Ans) (hd : WFDev d0) :
+    let w := afterA d0 started flags desc (hist ++ [(.disconnect, a)])
+    w.connected = false ∧ w.hasDev = false ∧ w.reported = none ∧ w.recvThr = false ∧ w.streamThr = false ∧
+    w.intf = false ∧ w.streamStarted = false ∧ w.commStarted = false :=
+  c09_after_disconnect_any d0 started flags desc hist a hd
+
+/-- the low-level handler after `disconnect()`: description forgotten, receive thread stopped, interface stopped -/
+theorem comm_after_disconnect (d0 : Device) (started : Bool) (flags : Nat) (desc : Desc)
+    (hist : List (CommCall × Ans)) (a : Ans) (hd : WFDev d0) :
+    let w := afterC d0 started flags desc (hist ++ [(.disconnect, a)])
+    w.commStarted = false ∧ w.hasDev = false ∧ w.reported = none ∧ w.recvThr = false ∧ w.intf = false ∧
+    w.streamThr = false :=
+  c09_comm_after_disconnect d0 started flags desc hist a hd
 
 /-- a session left streaming by somebody else is stopped by connect itself -/
-theorem connect_stops_stream (d0 : Device) (flags : Nat) (hd : WFDev d0) :
-    (after d0 true flags [.connect]).devStarted = false :=
-  c09_connect_stops_stream d0 flags hd
+theorem connect_stops_stream (d0 : Device) (flags : Nat) (desc : Desc) (hd : WFDev d0) :
+    (after d0 true flags [.connect] desc).devStarted = false :=
+  c09_connect_stops_stream d0 flags desc hd
+
+/-! ### never block -/
+
+/-- every public call returns after waiting for the device at most 3.8 s (high-level: one start/stop ACK wait, two
+    configuration ACK waits, the draining polls of connect / disconnect) resp. 2 s (low-level), whatever the device
+    answers and in whatever state the handler is -/
+theorem call_bounded (w : World) (c : Call) (a : Ans) : (step w c a).1.time ≤ w.time + 38 := step_bounded w c a
+theorem comm_call_bounded (w : World) (c : CommCall) (a : Ans) : (commStep w c a).1.time ≤ w.time + 20 :=
+  commStep_bounded w c a
 
 /-- the life-cycle methods that `Lifecycle.lean` transcribes are present in the current source
     (regenerated facts): connect (idempotence guard, comm.connect, fresh subscriber lists), disconnect
@@ -79,9 +212,24 @@ theorem source_shape :
     Gen.CfgShape.streamStartStopShape = true ∧ Gen.CfgShape.channelsInitShape = true ∧
     Gen.Comm.startCleansUp = true := by decide
 
+/-! ### non-vacuity -/
+
 example : (after ⟨[false, true, false], [0, 5, 0]⟩ true 3
     [.streamStart, .connect, .connect, .chEnable [0] true, .streamStart, .sub 1, .disconnect]).dev
       = ⟨[false, false, false], [0, 5, 0]⟩ := by decide +kernel
+
+/-- a description with different types, dimensions, metadata lengths, names and an rx padding is reported, and
+    reported again after a reconnect during which the device rejected the stop and lost the disable request -/
+example :
+    let desc : Desc := ⟨[⟨10, 1, 0, [0x61]⟩, ⟨0x85, 3, 2, []⟩, ⟨18, 4, 1, [0xc3, 0xa9]⟩], 8⟩
+    (afterA ⟨[false, true, false], [0, 5, 0]⟩ true 3 desc
+      [(.connect, {}), (.streamStart, {}), (.disconnect, ⟨.nack 5, .ack, .lost⟩), (.connect, {})]).reported
+      = some ⟨3, 3, 8, desc.chans⟩ := by decide +kernel
+
+/-- the low-level handler: a repeated connect keeps the buffered request, which the write then delivers -/
+example : (afterC ⟨[false, false], [0, 0]⟩ false 3 (Desc.plain 2)
+    [(.connect, {}), (.chEnable [0], {}), (.connect, {}), (.channelsWrite, {})]).dev.en = [true, false] := by
+  decide +kernel
 
 /-- non-vacuity of the zero-channel case: a device without channels is well formed … -/
 example : WFDev ⟨[], []⟩ := by simp [WFDev]
@@ -95,5 +243,10 @@ example : (run (World.fresh ⟨[], []⟩ true 3) [.connect, .streamStart, .chDis
     (after ⟨[], []⟩ true 3 [.connect, .streamStart, .chDisableAll true, .disconnect]).recvThr = false ∧
     (after ⟨[], []⟩ true 3 [.connect, .streamStart, .chDisableAll true, .disconnect]).hasDev = false := by
   decide +kernel
+
+/-- a disconnected state is reachable after a history with failures (hypothesis of `disconnected_is_inert_any_answers`) -/
+example : (afterA ⟨[true], [3]⟩ true 3 (Desc.plain 1)
+    [(.connect, {}), (.streamStart, ⟨.lost, .nack 1, .appliedAckLost⟩), (.disconnect, ⟨.nack 7, .lost, .lost⟩)]).connected
+      = false := by decide +kernel
 
 end Nxs.C09
